@@ -207,7 +207,8 @@ def run(tier):
     cov["positives_rejected_by_the_specification"] = {"count": len(posrej), "ids": [x["id"] for x in posrej[:12]]}
     cov["implementation_strictly_more_precise"] = {"count": len(wider),
                                                    "samples": [{"id": w["id"], "spec": w["spec"], "impl": w["impl"]} for w in wider[:6]]}
-    cov["exhaustive"] = ("operator / operand-type grid (MC_Static!Grid): 19 binary operators x %s operand types squared, 12 assignment "
+    cov["exhaustive"] = True
+    cov["exhaustive_over"] = ("operator / operand-type grid (MC_Static!Grid): 19 binary operators x %s operand types squared, 12 assignment "
                          "operators x targets x operand types, %d one-operand forms x 28 operand types"
                          % ("28" if tier == "thorough" else "12", 60))
     for i in sorted(texts)[:: max(1, len(texts) // 5)][:5]:
